@@ -42,7 +42,13 @@ def sources(tier, seed, ctx):
         shared = n % 2 == 0
         srcs.append({'a': [a[0], a[1]], 'b': [b[0], b[1]], 'oa': oa, 'ob': ob, 'shared': shared,
                      # the same input labels declared in another order (inputs correspond by position)
-                     'permute_right_inputs': shared and n % 5 == 0, 'ps': n})
+                     'permute_right_inputs': shared and n % 5 == 0, 'ps': n,
+                     # operands that are miters themselves (their labels and block names are the ones build_miter generates)
+                     'nest': (n // 9) % 3 if n % 9 == 4 else 0,
+                     # operands carrying a gate / block named like the ones build_miter generates
+                     'names': (n // 13) % 4 if n % 13 == 6 else 0,
+                     # the caller obtained and edited a pairwise-xor gadget of the same width before
+                     'prelude': n % 17 == 3})
     ctx['gen_note'] = f'{npairs} pairs from U(2,2,T6+OR+NXOR,2)={len(nets)} and U(3,2,4 types,2)={len(n3)}'
     return srcs
 
@@ -66,6 +72,32 @@ def record(src):
         if order == list(right.inputs):
             order.reverse()
         right.set_inputs(order)
+    if src.get('prelude'):
+        from cirbo.core.circuit import gate as G
+        from cirbo.synthesis.generation import generate_pairwise_xor
+
+        try:
+            gadget = generate_pairwise_xor(max(1, len(src['oa'])))
+            gadget.emplace_gate('all_equal', G.NOR if len(gadget.outputs) > 1 else G.NOT, tuple(gadget.outputs))
+            gadget.set_outputs(['all_equal'])
+        except Exception:
+            pass   # the caller's edit itself is not what is judged
+    if src.get('names'):
+        k = src['names']
+        tgt = left if k in (1, 2) else right
+        inner = [l for l in tgt.gates if l not in tgt.inputs]
+        if inner:
+            if k in (2, 3):
+                tgt.make_block('circuit2' if k == 2 else 'pairwise_xor', [inner[0]], [inner[0]])
+            if k in (1, 3) and 'big_or' not in tgt.gates:
+                tgt.rename_gate(inner[-1], 'big_or')
+    if src.get('nest'):
+        try:
+            nl = build_miter(left, right)
+            nr = build_miter(right, left) if src['nest'] == 1 else build_miter(left, left)
+            left, right = nl, nr
+        except Exception:
+            pass
     case = {'kind': 'miter', 'l': project(left), 'r': project(right), 'exc': '', 'eval_exc': '', 'eval_rows': [], 'sat': False, 'sat_exc': '', 'src': src}
     try:
         m = build_miter(left, right)
@@ -104,3 +136,6 @@ def features(case):
         yield 'shared-labels'
     if case['sat']:
         yield 'inequivalent'
+    for k in ('nest', 'names', 'prelude'):
+        if case['src'].get(k):
+            yield 'operand-' + k
